@@ -75,6 +75,8 @@ class Chan:
                           info.get("path"))
             raise exc("injected failure (jitsim)")
         if act == "interrupt":
+            if ans.get("exc") == "SystemExit":
+                raise SystemExit(3)
             raise KeyboardInterrupt()
         if act == "selfkill":
             os.kill(os.getpid(), signal.SIGKILL)
@@ -453,6 +455,7 @@ def child_main(rfd, wfd, cache_dir, private_tmp, pool):
     # the application has its own stdout object (a notebook, a test runner, a tee): restoring
     # "the" stdout must mean restoring this object, not sys.__stdout__
     sys.stdout = io.TextIOWrapper(io.FileIO(os.open(os.devnull, os.O_WRONLY), "w"), write_through=True)
+    sys.stderr = io.TextIOWrapper(io.FileIO(os.dup(2), "w"), write_through=True)
     install_seams(chan, cache_dir, private_tmp)
     import ffcx.codegeneration.jit as jit
 
@@ -465,14 +468,18 @@ def child_main(rfd, wfd, cache_dir, private_tmp, pool):
         req, objs = pool[cmd["req"]]
         handlers_before = list(root.handlers)
         stdout_before = sys.stdout
+        stderr_before = sys.stderr
         cwd_before = os.getcwd()
+        environ_before = dict(os.environ)
+        root_level_before = root.level
         chan.nseams = 0
         out = {"ev": "outcome", "req": cmd["req"]}
         try:
             fn = jit.compile_forms if req.kind == "forms" else jit.compile_expressions
             kwargs = dict(req.jit_kwargs)
             kwargs.update(cmd.get("kwargs") or {})
-            res_objs, module, code = fn(list(objs), options=dict(req.options), cache_dir=cache_dir,
+            res_objs, module, code = fn(list(objs), options=dict(req.options),
+                                        cache_dir=cmd.get("cache_arg") or cache_dir,
                                         timeout=cmd["timeout"], **kwargs)
             out["result"] = "returned"
             out["built"] = code[0] is not None
@@ -496,6 +503,9 @@ def child_main(rfd, wfd, cache_dir, private_tmp, pool):
                                 and all(a is b for a, b in zip(root.handlers, handlers_before)))
         out["stdout_same"] = sys.stdout is stdout_before
         out["cwd_same"] = os.getcwd() == cwd_before
+        out["stderr_same"] = sys.stderr is stderr_before
+        out["environ_same"] = dict(os.environ) == environ_before
+        out["root_level_same"] = root.level == root_level_before
         out["nseams"] = chan.nseams
         # leave the process as the next request of the same process would find it
         chan.send(out)
